@@ -216,8 +216,28 @@ func runC18(c *Ctx) {
 		if !okD {
 			c.Ob("C18-R2", "svc.callbacks store found", c.FnPos(fn), false, "no store to service.callbacks from suitableCallbacks result")
 		}
+		// the opt-in reader itself: EnvBool is false for an unset variable and otherwise boolString(value, false, true),
+		// whose empty-string case returns its `unset` argument (so a variable that is set but empty does not opt in)
+		eb := c.Fn("common/sense:EnvBool")
+		fe := c.Facts(eb)
+		for _, rs := range fe.AllReturns() {
+			t := fe.tr.term(rs.State, rs.Ret.Results[0], 0)
+			ok := (t == "false" && rs.State.lits["!sense.osLookupEnv(string#0)#1"]) || t == "sense.boolString(sense.osLookupEnv(string#0)#0, false, true)"
+			c.Ob("C18-R2", "sense.EnvBool: false when unset, otherwise boolString(value, unset=false, unparsable=true)", c.Position(rs.Ret.Pos()), ok, "returns "+t)
+		}
+		bs := c.Fn("common/sense:boolString")
+		fb := c.Facts(bs)
+		nEmpty := 0
+		for _, rs := range fb.AllReturns() {
+			t := fb.tr.term(rs.State, rs.Ret.Results[0], 0)
+			if _, isEmpty := hasLit(rs.State, mustRe(`^strings\.ToLower\(string#0\) == ""$`)); isEmpty {
+				nEmpty++
+				c.Ob("C18-R2", "sense.boolString: the empty string yields the `unset` default", c.Position(rs.Ret.Pos()), t == "bool#0", "returns "+t)
+			}
+		}
+		c.Ob("C18-R2", "sense.boolString has an empty-string case", c.FnPos(bs), nEmpty >= 1, fmt.Sprintf("%d", nEmpty))
 	})
-	c.Min("C18-R2", 14)
+	c.Min("C18-R2", 17)
 
 	c.Rule("C18-R3", "only rpc.NewServer and the four Node.start* functions register services, each on a server it created", func() {
 		reg := c.Fn("rpc:(*Server).RegisterName")
